@@ -111,7 +111,7 @@ def run(chk, drv):
     rng = chk.rng
     chk.extra["rule"] = ("newer schema = random schema; older schema = the same with a subset of fields dropped (exhaustive over subsets of the "
                          "top message for ≤ 6 fields in the thorough tier, random otherwise); data = bytes(newer value) with random unknown records of all "
-                         "four wire types injected at random record boundaries. non-trivial = at least one record unknown to the older schema; distinct by (schemas, data)")
+                         "four wire types injected at random record boundaries; a quarter of them again with an unknown record of about 4 / 8 / 16 / 64 KiB in front so that a read-block boundary falls inside a record. non-trivial = at least one record unknown to the older schema; distinct by (schemas, data)")
     nb = 50 if quick else 500
     for bi in range(nb):
         b = W.Batch(rng, "n%d" % bi, 6)
@@ -160,6 +160,34 @@ def run(chk, drv):
                     want = bpgen.obs_msg(old, olds, ci) + " | " + W.hexs(re)
                     if r != want:
                         chk.disagree("older-parse", {"schema": bpgen.schema_line(osid, olds), "data": data.hex(), "cls": ci}, r, want)
+                if re is not None and rng.random() < (0.25 if quick else 0.5):
+                    large_stage(chk, b, olds, oclasses, v, data, rng)
+
+
+BLOCKS = [4096, 8192, 16384, 65536]
+
+
+def large_stage(chk, b, olds, oclasses, v, data, rng):
+    """inputs LONGER than the block sizes a buffered reader would use: an unknown LEN record of about one block is put
+    in front of (or into) the encoding so that a block boundary falls inside one of the following records — or inside
+    the long unknown record itself; same oracle (unknown records re-emitted verbatim, known fields undisturbed,
+    evolution lossless) through parse / load / the delimited relay"""
+    ci = v[1]
+    newer_numbers = {f.num for f in b.schema[ci].fields}
+    old_numbers = {f.num for f in olds[ci].fields}
+    free = next(k for k in (2047, 2046, 1000, 999, 19, 18, 17, 16, 15, 14) if k not in newer_numbers)
+    m = bpgen.to_py(v, b.classes)
+    B = rng.choice(BLOCKS)
+    n = max(1, B + rng.randint(-48, 8))
+    pad = betterproto.encode_varint(free << 3 | 2) + betterproto.encode_varint(n) + bytes(rng.getrandbits(8) for _ in range(16)) * (n // 16) + b"\x00" * (n % 16)
+    bounds = WS.boundaries(data)
+    pos = 0 if rng.random() < 0.6 else rng.choice(bounds)
+    big = data[:pos] + pad + data[pos:]
+    inp = {"newer": b.describe(), "older": [[f.line() for f in mm.fields] for mm in olds], "cls": ci,
+           "value": bpgen.term(v), "data": big.hex(), "stage": "large", "block": B}
+    chk.case("large" + b.schema_line() + str(len(big)) + data.hex(), True, {"large_input_bytes": len(big), "around_block": B})
+    chk.count("large_inputs")
+    oracle(chk, inp, b.classes[ci], oclasses[ci], m, big, b.schema, ci, old_numbers)
 
 
 def classify(failure, known):
